@@ -56,6 +56,7 @@ enum ReportClass {
 
 fn class_of_sig(s: &Sig) -> ReportClass {
     match s {
+        Sig::On(inner, _) => class_of_sig(inner),
         Sig::Ivk { .. } => ReportClass::Kind,
         Sig::Missing { .. } => ReportClass::Missing,
         Sig::UnknownKey { .. } => ReportClass::UnknownKey,
@@ -337,21 +338,43 @@ pub fn spec(prop: &str) -> Option<PropSpec> {
                 id: "C09",
                 groups: &["A", "B1", "B3", "B4", "B5", "B6", "C2", "D", "G", "H"],
                 scripts: Scripts::KeepOnly,
-                adversarial: false,
+                adversarial: true,
                 uses_reference: true,
-                check: Box::new(move |c, _, out, _| reference_check(c, out, cfg, true)),
+                // duplicate members (second source only): every occurrence of a known key is known,
+                // every occurrence of an unknown key is unknown, a repeated tag member is an
+                // ordinary entry of the selected variant
+                check: Box::new(move |c, _, out, _| {
+                    if c.plain || only_duplicate_keys_irregular(c.payload) {
+                        reference_check(c, out, cfg, true)
+                    } else {
+                        Ok(())
+                    }
+                }),
                 rule: "(a) states = (derived struct / tagged enum with and without deny_unknown_fields, default and custom function, skipped / renamed fields; payload extended with keys of the key universe: near-misses, `_`-prefixed, padded, names of skipped fields, the tag key). Oracle: each non-effective key yields exactly one UnknownKey(key, accepted = effective keys of non-skipped fields in declaration order) at the container's location, or one call of the custom function with exactly (key, accepted, location); known keys and the tag never. (b) for every type and every object position governed by a struct / tagged enum without the attribute, every base/faulty payload p and every set of ≤ 2 extra members from the key universe × 4 values: outcome(p) = outcome(p ⊎ extras) (value, report multiset, user calls; reports at an ancestor quoting the enclosing payload are compared modulo the quoted value) — self-relative, no model.",
             }
         }
         "C10" => {
             let cfg = RefCfg { asp: Aspects { status: true, value: true, reports: true, visited: true, calls: false }, report_class: any_class, call_class: any_call };
+            let cfg_dup = RefCfg { asp: Aspects { status: true, value: false, reports: true, visited: true, calls: false }, report_class: any_class, call_class: any_call };
             PropSpec {
                 id: "C10",
                 groups: &["C1", "C2", "D", "G", "H"],
                 scripts: Scripts::KeepOnly,
-                adversarial: false,
+                adversarial: true,
                 uses_reference: true,
-                check: Box::new(move |c, _, out, _| reference_check(c, out, cfg, false)),
+                // a repeated tag member (second source only): the variant is selected by the member
+                // `Map::remove` hands out (the first one, for the second source); the others are
+                // ordinary entries of that variant. Which of two values of a repeated *field* wins
+                // is not fixed: status, reports and examined positions are compared, not the value.
+                check: Box::new(move |c, _, out, _| {
+                    if c.plain {
+                        reference_check(c, out, cfg, false)
+                    } else if only_duplicate_keys_irregular(c.payload) {
+                        reference_check(c, out, cfg_dup, true)
+                    } else {
+                        Ok(())
+                    }
+                }),
                 rule: "states = (unit-only and internally tagged enums with renamed variants, rename_all, 1–6 variants, variants sharing field names with different types, tag colliding with / near a field name, nested in containers; payload: every variant name, identifier, case variation, padded and truncated near-miss, non-string tag of every kind, missing tag, faults in the variant's fields). Oracle: variant selected (visible in the dump), the three tag reports with their locations, UnknownValue with the full ordered name list.",
             }
         }
@@ -389,6 +412,16 @@ pub fn run_catalogue(e: &Engine, prop: &str) -> i32 {
     let rec = Recorder::new(sp.id, e.tier);
     let groups = sp.groups;
     let select = move |r: &Root| group_in(r, groups);
+    // history independence over the same types first: the statement holds for a call whatever was
+    // deserialized before it on the same thread. If it does not, the sweep below (many calls per
+    // worker thread) has no defined expected outcome and is not run.
+    crate::history::run_history(e, &rec, sp.id, &select, matches!(sp.id, "C03" | "C12"));
+    if rec.violation_count() > 0 {
+        rec.not_exhaustive();
+        let mut assume: Vec<&str> = ASSUME_COMMON.to_vec();
+        assume.push("the per-payload sweep was skipped: calls depend on earlier calls of the same thread");
+        return rec.finish("model_checking", sp.rule, &assume);
+    }
     e.sweep(
         &SweepCfg { property: sp.id, select: &select, scripts: sp.scripts, sources: &[Src::Json, Src::Ov], adversarial: sp.adversarial, check: &*sp.check },
         &rec,
@@ -498,6 +531,8 @@ fn check_c11_rules(_c: &Case, out: &Outcome) -> Result<(), String> {
                     // directly after the intermediate value's probe exited ok
                     let prev = i.checked_sub(1).map(|j| &out.events[j]);
                     match (prev, last_exit) {
+                        // an `Option` intermediate built from `null` opens no probe frame
+                        _ if *arg == crate::probe::NONE_ARG => {}
                         (Some(Event::Exit { ok: true, .. }), Some((j, true, _))) if j + 1 == i => {
                             // the value: last leaf dump is not logged; check via the Enter kind instead
                             let _ = (arg, fn_name);
